@@ -104,7 +104,19 @@ CElse(b1, b2, sh, host) ==
                 [] OTHER -> IfS(BoolE(b1), ElseBody(sh, b2), <<Text("Z")>>, TRUE),
               Text(">")>>]
 
+(* a loop inside the else branch of an empty loop: its parent is the enclosing RUNNING loop (the empty one never started) *)
+CParentElse(s1, emp, dp) ==
+  [tag |-> "for-else-parent", n |-> s1[2],
+   body |-> <<ForS("", "a", s1[1], NoE,
+               <<ForS("", "b", emp, NoE, <<Text("never")>>,
+                      <<ForS("", "c", ArrN(2), NoE,
+                             <<P(AttrDot(L("parent"), "index")), Sep("."), P(L("index")), Sep("/"), P(AttrDot(L("parent"), "length")), Sep(" ")>>
+                             \o (IF dp THEN <<ForS("", "d", ArrN(1), NoE, <<P(AttrDot(AttrDot(L("parent"), "parent"), "index")), P(AttrDot(L("parent"), "index")), Sep(";")>>, <<>>, FALSE)>> ELSE <<>>),
+                             <<>>, FALSE)>>, TRUE),
+                 P(L("index")), Sep("|")>>, <<Text("E")>>, TRUE)>>]
+
 CaseSet ==
+  {CParentElse(s1, emp, dp) : s1 \in Iterables, emp \in {ArrE(<<>>), NameE("empty"), NameE("n"), NullE}, dp \in BOOLEAN} \cup
   {CElse(b1, b2, sh, host) : b1 \in BOOLEAN, b2 \in BOOLEAN, sh \in 1..6, host \in 1..4} \cup
   {C1(s, he) : s \in Seqs, he \in BOOLEAN} \cup {C2(s, he) : s \in Seqs, he \in BOOLEAN}
   \cup {C3(s, c, he) : s \in Seqs, c \in Conds, he \in BOOLEAN}
